@@ -1479,7 +1479,13 @@ fn c05_history(r: &Rng, i: usize) -> Vec<Vec<u8>> {
                 let k = r.below(progs.len() as u64) as usize;
                 let p = &mut progs[k];
                 p.version = (p.version + 1 + r.below(3) as u8) & 31;
-                match r.below(4) {
+                match r.below(6) {
+                    4 | 5 => {
+                        // a PID REPLACED by another one (same or larger number of streams): the old PID
+                        // must go although the table did not shrink
+                        let j = r.below(p.streams.len() as u64) as usize; p.streams.remove(j);
+                        for _ in 0..(1 + r.below(2)) { let np = distinct_pids(r, 1, &used)[0]; used.push(np); p.streams.push((PES_TYPES[r.below(6) as usize], np, vec![])); ever.push(np); }
+                    }
                     0 => { let np = distinct_pids(r, 1, &used)[0]; used.push(np); p.streams.push((PES_TYPES[r.below(6) as usize], np, vec![])); ever.push(np); }
                     1 => { if p.streams.len() > 1 { let j = r.below(p.streams.len() as u64) as usize; p.streams.remove(j); } }
                     2 => { let j = r.below(p.streams.len() as u64) as usize; p.streams[j].0 = if r.chance(1, 2) { 0x05 } else { PES_TYPES[r.below(6) as usize] }; }
